@@ -20,7 +20,7 @@ add("C01", "replicate ensembles of real Sampler.run() in separate processes vs c
     "Sampling-distribution claim decided on R=32 (quick) / 64 (thorough) independent runs per cell over 25 / 120 cells (targets: interior correlated, bimodal, hard face, periodic, reflective, d=4, 1000x-narrow posterior, volume-variation schedule) x ~10 estimands x 3 estimators from the same runs; resolves biases of ~3% of a posterior sd at N=128; thorough judges the largest N.",
     "Trusted: closed-form targets; Rule S thresholds fixed in DESIGN 2.6; false-alarm probability per cell <= (7e-6)^2. Known findings printed, not failed: tpcn+periodic, tpcn+reflective, rwm+reflective+correlated, trimmed-estimator, clustering-state-dependent-kernel.")
 add("C02", "replicate ensembles vs closed-form evidence (two-stage rule) + deterministic RNG-state-hash monitor at every pipeline step boundary of every run (shared or repeated state = shared innovations) + batch-means F test",
-    "Evidence bias judged on R=48/96 runs per cell (se ~0.013 nat at N=128) over 17 / 90 cells (one of them N=4096 with 25 stored iterations, 16/32 runs); independence decided deterministically: 1e4-1e5 RNG states hashed at step boundaries, any state shared by two seeds or recurring within a run is a witness.",
+    "Evidence bias judged on R=48/96 runs per cell (se ~0.013 nat at N=128) over 19 / 90 cells (one of them N=4096 with 25 stored iterations, 16/32 runs; two in dynamic mode with a variation of 0.04 / 0.02); independence decided deterministically: 1e4-1e5 RNG states hashed at step boundaries, any state shared by two seeds or recurring within a run is a witness.",
     "Trusted: numpy global stream is the only randomness source (private generators are caught by C09/C13 instead); closed-form logZ.")
 add("C03", "injected randomness: RNG interposer serves chosen gamma/normal/uniform draws to three consecutive sweeps of the real TPCNRunner/RWMRunner object, outcome compared with the tpCN/RWM specification (exact fold, scipy multivariate_t ratio, accept probes at alpha(1+-1e-6), one draw per proposal, out-of-cube rejection, rejection of proposals into a region of exactly zero likelihood); distributional invariance on exact pi_beta draws (paired z, confirm on fresh batch); pipeline cells with the library's own clusterer",
     "2000/20000 cases x 3 sweeps decide proposal map, gamma parameters, acceptance factor, accept rule and state carried between sweeps exactly; 22/200 invariance cells x 2e4/1e5 walkers decide pi_beta-invariance per kernel x boundary kind x covariance structure at z>5 twice.",
@@ -49,7 +49,7 @@ add("C10", "metamorphic pairs: same seeded real run with logL and logL+c; discre
 add("C11", "runtime monitor: instrumented likelihood counts finite/-inf evaluations per warm-up batch, hull oracle on every recorded beta=0 evidence, and no record of log 1 once a zero-likelihood draw was observed; stored -inf checked at step hooks; directed warm-up batches served by the RNG interposer (chosen rows in the zero-likelihood region); final evidence by two-stage replicate rule",
     "Hull test is exact per warm-up iteration on 74/400 traced runs (f in 0.15..1, 2-6 warm-up iterations, directed patterns row0/last/rows01/one-random/all-but-one); final evidence judged on R=32/96 replicates per cell.",
     "Trusted: closed-form evidence of the truncated Gaussian target; Rule S thresholds. Known finding: all-zero-likelihood-batch.")
-add("C12", "runtime monitor: run() postconditions against the reference MIS model; all 16 posterior() option combinations x trimming parameters with row identity through the evaluation log; finished runs re-opened from their final checkpoint; a second run() on the same object; posterior() on a stored history of more than 2^17 rows",
+add("C12", "runtime monitor: run() postconditions against the reference MIS model; all 16 posterior() option combinations x trimming parameters with row identity through the evaluation log; finished runs re-opened from their final checkpoint; a second run() on the same object; un-normalised likelihoods (constant of 720 ... 1e5 on logL); posterior() on a stored history of more than 2^17 rows",
     "Postconditions and the full posterior() contract (lengths, normalisation, uniformity, row alignment of x/logL/blob/logw/weights) decided on every completed run of a covering array (8 quick / ~260 thorough) x 16 combos x 5-9 trimming settings.",
     "Trusted: long-double MIS reference; log-weights compared up to one additive constant per call.")
 add("C13", "runtime monitor over evaluation schedules: same seed under vectorised / scalar / reversed / permuted / delayed ThreadPool / full multiprocessing-Pool API with truly unordered variants / futures-style executor / genuine concurrent.futures.ThreadPoolExecutor / caller-made multiprocess.Pool object / integer pools / return-type variants (read-only view of a reused buffer, list, 0-d array, np.float64, longdouble), sha256 of histories, cross-process evaluation counter",
@@ -61,7 +61,7 @@ add("C14", "invariant at the kernel boundary (hook on parallel_mcmc) and for eve
 add("C15", "runtime contract monitors on GaussianMixture / HierarchicalGaussianMixture over generated weighted data sets (incl. clusters 1e4-1e9 spreads apart); metamorphic weight-replication pairs with fixed EM step count; re-used model object vs fresh object (differential); prediction of a row alone vs inside batches of up to 70001 rows",
     "Algebraic invariants (weights, PSD, bounding box, label ranges, cap, min_points, predict ranges, centres/covariances of the hierarchical model for 'full') asserted on every fit of 300 (quick) / 5000 (thorough) generated data sets; replication equivalence on a third of them.",
     "Trusted: numpy eigvalsh; mean-in-box judged for component weight > 1e-3.")
-add("C16", "runtime monitor: real apply_boundary_conditions/check_bounds vs exact rational (Fraction) fold on hostile and random doubles, memory layouts and index-list forms, index containers edited in place between calls, index arrays of every integer dtype in 70-300 dimensions, FP-exception trap",
+add("C16", "runtime monitor: real apply_boundary_conditions/check_bounds vs exact rational (Fraction) fold on hostile and random doubles, memory layouts and index-list forms, index containers edited in place between calls, index arrays of every integer dtype in 70-300 dimensions, batches of 65537 ... 4e6 rows against their own pieces, FP-exception trap",
     "Each folded value is compared with the exact rational fold of the input double (error <= 2^-53), with idempotence, untouched-coordinate bit-identity, 1-D/2-D/Fortran/strided agreement and check_bounds equivalence; ~2e5 values quick, ~5e6 thorough plus hypothesis floats() and the repo's own suite under a contract monitor.",
     "Trusted: python fractions; the catalogue/generators decide reach.")
 add("C17", "history + executable reference model: random StateManager operation sequences vs dict-of-copies model with a hostile caller overwriting every returned array (incl. 0-d arrays, read-only views of caller-owned buffers, ragged batches); sampler-level twin runs compared bitwise (incl. a likelihood that returns a view of a reused buffer); append-only monitor on real runs",
